@@ -3,6 +3,7 @@ import math
 import os
 
 import numpy as np
+import pandas as pd
 from hypothesis import strategies as st
 
 from vlib import gen, oracle
@@ -181,4 +182,38 @@ def run(case):
             out.fail("reload:field_order_scrambled" if scr else "reload:value_changed",
                      f"row {i} field {c}: got {got[i]!r} expected {exp[i]!r}")
             break
+    if out.violations:
+        return out
+    # one list object over a short history: written, changed in place, written again - each file holds the list as it
+    # was at that moment (whatever form the object was built through, whatever its row labels have become)
+    form = ["motl", "emmotl", "emmotl_copy"][(n + len(t["cols"][0])) % 3]
+    out.label(f"history:{form}")
+    build = {"motl": lambda: cryomotl.Motl(df.copy()), "emmotl": lambda: cryomotl.EmMotl(df.copy()),
+             "emmotl_copy": lambda: cryomotl.EmMotl(cryomotl.EmMotl(df.copy()))}[form]
+    ok, mo = call(out, f"build:{form}", build)
+    if not ok:
+        return out
+    ok, _ = call(out, "write_out(first)", lambda: mo.write_out("h1.em"))
+    if not ok:
+        return out
+    model = pd.DataFrame(np.where(np.isnan(a), np.nan, a), columns=oracle.MOTL_COLUMNS)
+    bad = oracle.em_motl_mismatch("h1.em", model)
+    if not out.check(bad is None, f"history:first_file_{bad}", form):
+        return out
+    step = (n + int(abs(expect[0, 7])) % 7) % 3
+    if step == 0:      # a field overwritten in the existing table
+        mo.df.loc[:, "geom1"] = 0.25
+        model["geom1"] = 0.25
+    elif step == 1:    # the documented in-place operation
+        call(out, "scale_coordinates", lambda: mo.scale_coordinates(0.5))
+        for c_ in ("x", "y", "z", "shift_x", "shift_y", "shift_z"):
+            model[c_] = model[c_] * 0.5
+    else:              # rows reversed: the table keeps its (now descending) row labels
+        mo.df = mo.df.iloc[::-1]
+        model = model.iloc[::-1].reset_index(drop=True)
+    out.label(f"history_step:{step}")
+    ok, _ = call(out, "write_out(second)", lambda: mo.write_out("h2.em"))
+    if ok:
+        bad = oracle.em_motl_mismatch("h2.em", model)
+        out.check(bad is None, f"history:second_file_does_not_hold_the_changed_list:{bad}", f"{form} step {step}")
     return out
